@@ -150,6 +150,8 @@ structure Payload (E : Type) where
   splitNodes : Mode → Subset → Input E → E → List E
   /-- `lookup`: nodes pushed and whether `get_word_info_subset` failed on the way -/
   lookupNodes : List E → Subset → List E × Bool
+  /-- `MorphemeList::lookup` writes its `subset` argument into the list's part (repair 171a12c) -/
+  lookupSets : Bool := false
 
 /-- `InputBuffer::reset` (the caller then writes the text into `original`) -/
 def Input.reset {E : Type} (i : Input E) : Input E :=
@@ -453,7 +455,10 @@ def World.lookup {E : Type} (P : Payload E) (w : World E) (j : Nat) (q : List E)
   | some L =>
     match w.parts[L.part]? with
     | none => (w, .ok)
-    | some p =>
+    | some p0 =>
+      -- repaired `lookup` (171a12c) records the subset of the call in the list's part FIRST (`part.subset = subset`);
+      -- the pinned code left the subset of the last `collect_results` (payload flag `lookupSets`, set by the harness probe)
+      let p : Part E := { input := p0.input, subset := if P.lookupSets then s else p0.subset }
       let i0 := p.input.reset
       let i0 := { i0 with original := i0.original ++ q }
       match Input.startBuild P i0 with
@@ -489,6 +494,39 @@ def World.step {E : Type} (v : ResetVariant) (P : Payload E) (w : World E) : Op 
 def World.run {E : Type} (v : ResetVariant) (w : World E) : List (Payload E × Op E) → World E
   | [] => w
   | (P, op) :: rest => World.run v (w.step v P op).1 rest
+
+/-! ## the Python binding: `Tokenizer.tokenize(text, mode=None, out=None)` (python/src/tokenizer.rs) -/
+
+/-- `PyTokenizer::tokenize`: `default_mode = mode.map(|m| set_mode(m))`; a scope guard restores the mode on EVERY exit
+(`?` of the analysis, `?` of `collect_results`, unwinding); `reset().push_str(text); do_tokenize()?`; the result goes
+into `out` or into a new `MorphemeList::empty`; `collect_results(..)?`.  `lists.length` = the index the new list gets. -/
+def World.pyTokenize {E : Type} (v : ResetVariant) (P : Payload E) (w : World E) (mode : Option Mode) (out : Option Nat)
+    (text : List E) : World E × Outcome :=
+  let default := w.tok.mode
+  let w1 := match mode with
+    | some m => (w.step v P (.setMode m)).1
+    | none => w
+  let restore := fun (u : World E) => match mode with
+    | some _ => (u.step v P (.setMode default)).1
+    | none => u
+  match w1.step v P (.analyse text) with
+  | (w2, .ok) =>
+    match out with
+    | none =>
+      let r := (w2.step v P .newList).1.step v P (.collect w2.lists.length)
+      (restore r.1, r.2)
+    | some j =>
+      let r := w2.step v P (.collect j)
+      (restore r.1, r.2)
+  | (w2, o) => (restore w2, o)
+
+/-- the calls of one `tokenize` as a plain history (`analysisOk` = did `do_tokenize` return Ok) -/
+def pyOps {E : Type} (P : Payload E) (default : Mode) (nLists : Nat) (mode : Option Mode) (out : Option Nat)
+    (text : List E) (analysisOk : Bool) : List (Payload E × Op E) :=
+  (match mode with | some m => [(P, Op.setMode m)] | none => []) ++ [(P, Op.analyse text)] ++
+  (if analysisOk then
+    (match out with | none => [(P, Op.newList), (P, Op.collect nLists)] | some j => [(P, Op.collect j)]) else []) ++
+  (match mode with | some _ => [(P, Op.setMode default)] | none => [])
 
 /-- the tokenizer a caller would create for the same mode and field request -/
 def Tok.freshFor {E : Type} (m : Mode) : Option Subset → Tok E
